@@ -3,8 +3,10 @@
          (Gen/LdmLockSummary.v, translator tools/gen_locks_ldm.py; every method of every class, Thread and Reactive
          variants): each access to the store, the id counter, the registries and the subscription tables is inside
          the critical section of its lock; every DictionaryDataBase method is ONE critical section; locks are taken
-         in rank order (the database lock innermost) or re-entrantly;
-     (2) for any number of threads calling those methods in any order: mutual exclusion, no conflicting access to a
+         in rank order (the state lock of the service outermost, the database lock innermost) or re-entrantly; the
+         IF.LDM.3 / IF.LDM.4 calls are summarised too (ldm_if_summary) and meet the same discipline and order, and
+         add_provider_data / subscribe_data_consumer check the registration and store inside ONE state-lock section;
+     (2) for any number of threads calling those methods and interface calls in any order: mutual exclusion, no conflicting access to a
          protected field, no deadlock - for every reachable interleaving;
      (3) for every total order of the critical sections (= every list of atomic operations): identifiers unique, fresh
          and never reused; an added object keeps its value until an operation names it (not lost, not duplicated);
@@ -39,6 +41,29 @@ Print Assumptions C16_lock_discipline.
 Theorem C16_lock_order : forallb (ordr ldm_rank ldm_reent []) ldm_summary = true.
 Proof. exact ldm_summary_lock_order. Qed.
 Print Assumptions C16_lock_order.
+
+(* the IF.LDM.3 / IF.LDM.4 calls themselves (Gen: ldm_if_summary, one summary per call and configuration - Thread service
+   over Thread maintenance, Reactive over Reactive): same discipline, and the same ranked order with the state lock of the
+   service OUTERMOST (rank 0), the maintenance / time-stamp locks in the middle, the database lock innermost *)
+Theorem C16_interface_lock_discipline : forallb (wl ldm_policy []) ldm_if_summary = true.
+Proof. exact ldm_if_summary_well_locked. Qed.
+Print Assumptions C16_interface_lock_discipline.
+
+Theorem C16_interface_lock_order : forallb (ordr ldm_rank ldm_reent []) ldm_if_summary = true.
+Proof. exact ldm_if_summary_lock_order. Qed.
+Print Assumptions C16_interface_lock_order.
+
+(* "registered? then store" is ONE section of the service's state lock in add_provider_data (the provider registry is read
+   and the store written inside it: fix of KF-C16-2) and in subscribe_data_consumer (consumer registry / subscriptions) *)
+Theorem C16_interface_check_then_act_is_one_section :
+  forallb (one_section 3) ldm_if_single_sections = true /\
+  forallb (fun m => touches (Rd 4) m && touches (Wr 0) m)
+          [LM_InterfaceLDM3_Thread_add_provider_data; LM_InterfaceLDM3_Reactive_add_provider_data] = true /\
+  forallb (fun m => touches (Rd 5) m && touches (Wr 6) m)
+          [LM_InterfaceLDM4_Thread_subscribe_data_consumer; LM_InterfaceLDM4_Reactive_subscribe_data_consumer] = true /\
+  Forall (fun m => In m ldm_if_summary) ldm_if_single_sections.
+Proof. exact if_check_then_act_single_section. Qed.
+Print Assumptions C16_interface_check_then_act_is_one_section.
 
 Theorem C16_database_methods_are_single_sections : forallb (one_section 0) ldm_methods_DictionaryDataBase = true.
 Proof. exact db_methods_atomic. Qed.
